@@ -25,6 +25,10 @@ def cases(prop, tier, seed):
         if t % 3 == 0:
             a = rs.randn(*shape).round(1)
             a[rs.rand(*shape) < 0.2] = np.nan
+            if t % 9 == 0:
+                a = a * 1e-18          # tiny magnitudes: weights must stay scale free
+            if t % 6 == 0:
+                a[rs.rand(*shape) < 0.3] = 0.0
         else:
             a = rs.choice(VALUES, size=shape)
         out.append(dict(kind="argmax", a=a.tolist(), t=t, key=["argmax", t]))
@@ -86,12 +90,24 @@ def run_case(prop, case):
     if method == "proportional":
         npos = int(np.sum(a[~np.isnan(a)] > 0))
         if npos < min(b, nn):
-            return fails      # numpy's choice needs that many positive weights: outside the documented domain
+            # fewer positive weights than requested: numpy's choice raises; a batch containing a zero-weight or NaN entry
+            # would violate the property
+            try:
+                q = simple_batch(a.copy(), random_state=case["t"], batch_size=b, method=method)
+            except Exception:
+                return fails
+            bad = [int(i) for i in np.asarray(q).ravel() if not a[int(i)] > 0]
+            if bad:
+                fail("simple_batch.zero_weight_selected", f"positions {bad} of weight {[a[i] for i in bad]} selected (batch {b}, {npos} positive weights)")
+            return fails
     u = a.copy()
     try:
         q, U = simple_batch(u, random_state=case["t"], batch_size=b, return_utilities=True, method=method)
     except Exception as e:
-        fail("simple_batch.raised", f"{type(e).__name__}: {e} (method={method}, batch_size={b}, array {a.tolist()})")
+        if method == "proportional" and nn == 0:
+            fail("simple_batch.proportional_raises_without_candidates", f"{type(e).__name__}: {e} (all entries NaN; expected an empty batch)")
+        else:
+            fail("simple_batch.raised", f"{type(e).__name__}: {e} (method={method}, batch_size={b}, array {a.tolist()})")
         return fails
     k = min(b, nn)
     q = np.asarray(q)
